@@ -211,13 +211,19 @@ func init() {
 				}
 				cases = append(cases, Case{"section": sec.text, "key": sec.key, "reps": reps})
 			}
+			// the same with lengths just above 2^14 that are no multiples of a worker count: wherever a converter cuts such a piece
+			// into blocks, some cut falls right behind an announcement
+			for _, reps := range []int{3277, 3278, 3279, 3280, 3281} {
+				cases = append(cases, Case{"section": "G[1]{key=G} D[1] A[1]{key=A} E[1] D[1]", "key": "C", "reps": reps, "procs": "4"},
+					Case{"section": "G[1]{key=G} D[1] A[1]{key=A} E[1] D[1]", "key": "", "reps": reps + 1640, "procs": "8"})
+			}
 			return cases
 		},
 		Exec: func(c *Ctx, k Case) []Rec {
 			if sec := cs(k, "section"); sec != "" {
 				one, _ := convRec(c, "syllable", cs(k, "key"), sec+"\n")
 				whole := c.crdEnv(append([]string{"text", "conv", "syllable"}, keyArgs(cs(k, "key"))...), []byte(strings.Repeat(sec+"\n", ci(k, "reps"))),
-					[]string{"GOMAXPROCS=" + []string{"4", "16", "2"}[len(sec)%3]}, 300e9)
+					[]string{"GOMAXPROCS=" + map[bool]string{true: cs(k, "procs"), false: []string{"4", "16", "2"}[len(sec)%3]}[cs(k, "procs") != ""]}, 300e9)
 				out, ok := projectInstances(whole.Stdout)
 				blocks := ok && whole.Exit == 0
 				n1 := 0
